@@ -3,7 +3,7 @@
 //! The real `DebugSession` runs in-process over a mock transport in a forked worker (one worker per session; the
 //! approach of c12.rs). A request line is one complete DAP message in prefix-token notation
 //!
-//!   C08D new <sid> <asfound|repaired>
+//!   C08D new <sid> <current|asfound|repaired>      (`current` = the code as it is)
 //!   C08D msg <class> <trans> <t0|t1> <json tokens ...>
 //!
 //! `<class> <trans> <t?>` are hints REWRITTEN by `exec` from the observed wire (class of the answer, whether a
@@ -692,7 +692,7 @@ fn parse_sessions(lines: &[String]) -> Vec<Session> {
     for l in lines {
         let t: Vec<&str> = l.split(' ').filter(|x| !x.is_empty()).collect();
         match t.as_slice() {
-            ["C08D", "new", _sid, q] if ["asfound", "repaired"].contains(q) => out.push(Session { new_line: l.clone(), quirks: q.to_string(), lines: vec![] }),
+            ["C08D", "new", _sid, q] if ["current", "asfound", "repaired"].contains(q) => out.push(Session { new_line: l.clone(), quirks: q.to_string(), lines: vec![] }),
             ["C08D", "msg", _cls, _trans, tg, rest @ ..] if !out.is_empty() && (*tg == "t0" || *tg == "t1") => {
                 let mut pos = 0;
                 let m = JV::parse(rest, &mut pos, 0).filter(|_| pos == rest.len());
@@ -700,7 +700,7 @@ fn parse_sessions(lines: &[String]) -> Vec<Session> {
                 out.last_mut().unwrap().lines.push((if m.is_some() { base } else { l.clone() }, m));
             }
             _ => {
-                if out.is_empty() { out.push(Session { new_line: String::new(), quirks: "asfound".into(), lines: vec![] }); }
+                if out.is_empty() { out.push(Session { new_line: String::new(), quirks: "current".into(), lines: vec![] }); }
                 out.last_mut().unwrap().lines.push((l.clone(), None));
             }
         }
@@ -941,7 +941,8 @@ pub fn exec(req: &[String], out: &mut Out, dir: &Path) {
 
 pub fn run(args: &[String]) {
     let a = parse_args(args);
-    let quirks = a.rest.iter().position(|x| x == "--quirks").and_then(|i| a.rest.get(i + 1)).cloned().unwrap_or_else(|| "asfound".into());
+    // `--quirks` of the console leg is not used here: the DAP model is compared in its setting `current` (the code as it is)
+    let quirks = "current".to_string();
     let mut out = Out::new(&a.out);
     let req = match &a.replay {
         Some(f) => read_lines(f),
